@@ -200,7 +200,7 @@ func init() {
 			e.P("def %sFlushGuard : Bool := %s", t.lean, LeanBool(guard))
 			e.P("/-- … hands the full list to the provider, returns its error at once, and only then clears both change lists -/")
 			e.P("def %sFlushPassesFull : Bool := %s", t.lean, LeanBool(passesFull && clears == 2))
-			// locks: every method starts with Lock/RLock + deferred unlock
+			// locks: every method starts with Lock/RLock + deferred unlock and has no other lock/unlock in its body
 			var locks []string
 			for _, m := range []string{"Reset", "Get", "Del", "Save", "Flush", "All", "Match"} {
 				fd := FuncDecl(f, t.recv, m)
@@ -216,6 +216,11 @@ func init() {
 					case a == t.v+".lock.RLock()" && b == "defer"+t.v+".lock.RUnlock()":
 						kind = "RLock"
 					}
+				}
+				// … and holds it to the end: the lock is not touched anywhere else in the body (a method that
+				// unlocks in the middle — say, around the provider's I/O — and locks again does not "hold" it)
+				if kind != "none" && strings.Count(nows(Src(fd.Body)), "."+"lock.") != 2 {
+					kind = "partly"
 				}
 				locks = append(locks, m+":"+kind)
 			}
